@@ -208,7 +208,7 @@ GROUPS = [guard(mstep_map), guard(limits), guard(sum_to_one), guard(init_copy), 
 CONTROLS = [ctrl]
 SHARED = [("C19", "map_prior_copy", ["C19.map.priorcopy"]), ("C03", "avg_post", ["C02.mstep.reduce", "C03.avg.post"]),   # the dispatcher: MAP M-step iff trainer == "map" NOW
           ("C02", "estep_post", ["C02.estep.n", "C02.estep.sum_px", "C02.estep.sum_pxx", "C02.estep.log_likelihood", "C02.estep.t"])]   # "the prior is never modified" needs the adapted machine to own its arrays
-REPLAY = [("C05.weights", "gmm_repro.py", "map_mstep", {"fields": ["weights"]}), ("C05.means", "gmm_repro.py", "map_mstep", {"fields": ["means"]}),
+REPLAY = [("C05.def", "gmm_repro.py", "starved", {"trainer": "map"}), ("C05.weights", "gmm_repro.py", "map_mstep", {"fields": ["weights"]}), ("C05.means", "gmm_repro.py", "map_mstep", {"fields": ["means"]}),
           ("C05.frame", "gmm_repro.py", "map_mstep", {"fields": ["weights", "means"]}), ("C05.m.other", "gmm_repro.py", "map_mstep", {"fields": ["weights", "means"]}),
           ("C02.mstep", "gmm_repro.py", "map_mstep", {"no_variances": True}), ("C03.avg", "gmm_repro.py", "map_mstep", {"no_variances": True}),
           ("C05.loop.body", "gmm_repro.py", "dask_isolated", {"trainer": "map"}), ("C05", "gmm_repro.py", "map_mstep", {}), ("C05.loop", "gmm_repro.py", "fit_loop", {"trainer": "map"})]
